@@ -122,4 +122,44 @@ theorem gtm_wiring :
 /-- thresholds of the cumulative integrals (10^16.5 tail limit, positivity mask) are the documented ones; no new special case -/
 theorem guards_cumulative : Gen.Guards.massFunction = Spec.Guards.massFunction ∧ Gen.Guards.integrate = Spec.Guards.integrate := by decide
 
+/-! ## NaN rows (any carrier with a "keep" test: for IEEE floats `x == x`) -/
+section nan
+open Hmf.Lists
+variable {α : Type} [Sci α]
+
+theorem dropBy_append (keep : α → Bool) (m₁ m₂ d₁ d₂ : List α) (hl : m₁.length = d₁.length) :
+    dropBy keep (m₁ ++ m₂) (d₁ ++ d₂) =
+      ((dropBy keep m₁ d₁).1 ++ (dropBy keep m₂ d₂).1, (dropBy keep m₁ d₁).2 ++ (dropBy keep m₂ d₂).2) := by
+  simp [dropBy, List.zip_append hl]
+
+theorem dropBy_all_kept (keep : α → Bool) : ∀ (m d : List α), m.length = d.length → (∀ x ∈ d, keep x = true) → dropBy keep m d = (m, d)
+  | [], [], _, _ => by simp [dropBy]
+  | [], _ :: _, h, _ => by simp at h
+  | _ :: _, [], h, _ => by simp at h
+  | a :: m, b :: d, h, hk => by
+      have ih := dropBy_all_kept keep m d (by simpa using h) (fun x hx => hk x (List.mem_cons_of_mem _ hx))
+      have hb : keep b = true := hk b (by simp)
+      simp only [dropBy, List.zip_cons_cons, List.filter_cons, hb, if_true, List.map_cons] at ih ⊢
+      rw [Prod.mk.injEq] at ih ⊢
+      exact ⟨by rw [ih.1], by rw [ih.2]⟩
+
+theorem dropBy_none_kept (keep : α → Bool) : ∀ (m d : List α), (∀ x ∈ d, keep x = false) → dropBy keep m d = ([], [])
+  | [], _, _ => by simp [dropBy]
+  | _ :: _, [], _ => by simp [dropBy]
+  | a :: m, b :: d, hk => by
+      have ih := dropBy_none_kept keep m d (fun x hx => hk x (List.mem_cons_of_mem _ hx))
+      have hb : keep b = false := hk b (by simp)
+      simp only [dropBy, List.zip_cons_cons, List.filter_cons, hb, Bool.false_eq_true, if_false] at ih ⊢
+      exact ih
+
+/-- **C08, NaN clause**: a table whose top rows hold NaN (a mass function not evaluated up there) is integrated exactly like the table
+    that stops before them — for every length of either part, both integrands and either branch of the tail -/
+theorem nan_top_rows_same_as_shorter_table (md ext : Bool) (m₁ m₂ d₁ d₂ : List α) (n : Nat)
+    (hl : m₁.length = d₁.length) (h1 : ∀ x ∈ d₁, Sci.beq x x = true) (h2 : ∀ x ∈ d₂, Sci.beq x x = false) :
+    hmfIntegralGtmRaw md ext (m₁ ++ m₂) (d₁ ++ d₂) n = hmfIntegralGtm md ext m₁ d₁ n := by
+  unfold hmfIntegralGtmRaw dropNaN
+  rw [dropBy_append _ _ _ _ _ hl, dropBy_all_kept _ m₁ d₁ hl h1, dropBy_none_kept _ m₂ d₂ h2]
+  simp
+end nan
+
 end Hmf.C08
